@@ -2152,3 +2152,43 @@ pub fn f_ign_requires() -> Vec<Case> {
     }
     v
 }
+
+/// one large require group (the sort implementation may switch algorithm with the size of its input) containing one
+/// duplicated NAME: every pair of positions for the duplicate x several base orders x several sizes
+pub fn f_req_large(thorough: bool) -> Vec<Case> {
+    let mut v = Vec::new();
+    let sizes: &[usize] = if thorough { &[21, 22, 24, 33, 50, 64] } else { &[21, 33] };
+    for &n in sizes {
+        let mut orders: Vec<Vec<usize>> = vec![];
+        orders.push((0..n).rev().collect()); // descending
+        orders.push((0..n).collect()); // ascending (already sorted)
+        orders.push((0..n).map(|i| if i % 2 == 0 { i / 2 } else { n - 1 - i / 2 }).collect()); // interleaved
+        orders.push((0..n).map(|i| (i + n / 2) % n).collect()); // rotated
+        orders.push((0..n).map(|i| (i * 7) % n).collect::<Vec<_>>()); // stride (a permutation when gcd(7, n) = 1)
+        for ord in orders {
+            let mut chk = ord.clone();
+            chk.sort();
+            chk.dedup();
+            if chk.len() != n {
+                continue;
+            }
+            let step = if thorough { 1 } else { 2 };
+            for i in (0..n).step_by(step) {
+                for j in ((i + 1)..n).step_by(step) {
+                    let mut text = String::new();
+                    let mut items = vec![];
+                    for (k, o) in ord.iter().enumerate() {
+                        // the statement at position j takes the NAME of the statement at position i; the module strings differ
+                        let name = format!("N{:02}", if k == j { ord[i] } else { *o });
+                        text.push_str(&format!("local {} = require(\"m{:02}\")\n", name, k));
+                        items.push(ReqItem { kind: ReqKind::Require, name, ignored: false, sep_before: if k == 0 { Sep::Blank } else { Sep::None } });
+                    }
+                    let mut c = case("F-REQ", Dial::Core, text);
+                    c.meta.req = items;
+                    v.push(c);
+                }
+            }
+        }
+    }
+    v
+}
